@@ -355,8 +355,9 @@ def py_oracle_C03(case):
 
 
 def py_oracle_T(case):
-    """kind=inject only; the run-time form of `ConcT_run_fresh` (model T, time-to-live half): a value
-    whose insert read the clock at r is never returned at a reading >= r + ttl. An insert carries
+    """kind=inject only; the run-time form of `ConcT_run_fresh` (model T): a value whose insert read
+    the clock at r is never returned at a reading >= r + ttl, nor once an invalidate_all with a
+    strictly later reading has completed. An insert carries
     the clock of its line, except a scripted whole-call insert that other logical threads overtook
     between its clock reading and its map write: the harness notes its reading (`#rd k t`, just
     before its line). Sound whatever was injected: a value inserted several times for a key counts
@@ -368,7 +369,7 @@ def py_oracle_T(case):
     if not m:
         return True
     ttl = int(m.group(1))
-    now, rd, note = 0, {}, {}
+    now, rd, note, inv = 0, {}, {}, None
     for l in case[1:]:
         if l.startswith("#rd "):
             w = l.split()
@@ -384,6 +385,10 @@ def py_oracle_T(case):
             w = w[1:]
         if w[0] in ("adv", "iterlag") and len(w) == 2:
             now += int(w[1])
+        elif w[0] == "invall":
+            # a completed invalidate_all (a scripted one is printed at its reading, an injected one
+            # after it returned): its reading is the clock of its line
+            inv = now if inv is None else max(inv, now)
         elif w[0] == "ins" and len(w) == 3:
             r = note.pop(w[1], now)
             rd[(w[1], w[2])] = max(rd.get((w[1], w[2]), 0), r)
@@ -395,6 +400,9 @@ def py_oracle_T(case):
             if mm:
                 r = rd.get((k, mm.group(1)))
                 if r is not None and now >= r + ttl:
+                    return False
+                # the watermark half: no completed invalidate_all has a strictly later reading
+                if r is not None and inv is not None and r < inv:
                     return False
     return True
 
